@@ -39,7 +39,13 @@ fn single_ops(w: usize, peek_limit: usize, tier: Tier) -> Vec<ROp> {
     }
     for n in (1..=peek_limit).step_by(step) {
         v.push(ROp::Peek(n));
+        for m in [0usize, 1, n / 2, n.saturating_sub(1), n] {
+            if m <= n {
+                v.push(ROp::PeekSkip(n, m));
+            }
+        }
     }
+    v.dedup();
     v
 }
 
